@@ -99,7 +99,8 @@ CUnary ==
 
 \* ------------------------------------------------------------------------------ streams
 \* fail: "none" endless | "finish" (producer) / "raise": the process() call after nout outputs finishes / raises
-\*       "schema": the client's input after nout good ones has the wrong schema | "init": the method raises before the stream
+\*       "schema": the client's first input has the wrong schema (a change of schema in mid-stream is refused by the
+\*       client's own IPC writer and is not a legal script) | "init": the method raises before the stream
 \*       "cb": every process() logs before it emits; the client's log callback raises on the output after nout good ones
 Shape(k, ci, co, fail) ==
   \/ k = "p" /\ ci = "-" /\ co \in OutP \cup OutD \cup OutZ /\ fail \in {"none", "finish", "raise", "init", "cb"}
@@ -107,7 +108,7 @@ Shape(k, ci, co, fail) ==
   \/ k = "x" /\ ci \in InP /\ co \in OutP /\ fail = "schema"
 BeginStream(k, ci, co, fail, nout) ==
   /\ st.pc = "idle" /\ Shape(k, ci, co, fail) /\ Pal(ci) /\ Pal(co)
-  /\ nout \in 0..(MaxTicks - 1) /\ (fail \in {"none", "init"} => nout = 0)
+  /\ nout \in 0..(MaxTicks - 1) /\ (fail \in {"none", "init", "schema"} => nout = 0)
   /\ st' = [Idle EXCEPT !.pc = "s_cli", !.k = k, !.ci = ci, !.co = co, !.fail = fail, !.nout = nout]
   /\ UNCHANGED <<cfg, fx, mem, held, bad>>
 InClass == IF st.fail = "schema" /\ st.n = st.nout THEN WrongC ELSE st.ci
